@@ -18,7 +18,7 @@ GENERATORS = ['gen_attr_reserved']
 DISAGREEMENT_IS_TIE_ONLY = False
 MODELLED_FUNCS = {'sugar/core/meta.py': ['Attr.__init__', 'Attr.__getitem__', 'Attr.__setitem__', 'Attr.__delitem__', 'Attr.__getattr__',
                                          'Attr.copy', 'Attr.update', 'Attr.__iter__', 'Attr.__len__']}
-NO_SHRINK_KEYS = ['mapkind', 'obj', 'how', 'mk', 'sub', 'data', 'arg']
+NO_SHRINK_KEYS = ['mapkind', 'obj', 'how', 'mk', 'sub', 'data', 'arg', 'a', 'b', 'operand']
 
 # ----------------------------------------------------------------------------- literals
 
@@ -250,7 +250,24 @@ def gen_attr_case(rng, nops, p_res=0.0):
                     tt = tt[e]
             except Exception:
                 tt = None
-            op = [name, p, fresh(tt) if rng.random() < 0.6 else rand_lit(rng, 2)]
+            cand = fresh(tt) if rng.random() < 0.6 else rand_lit(rng, 2)
+            if isinstance(cand, dict) and rng.random() < 0.5:
+                # same length, key sets differ only in a key whose value is None (a missing key is not a None value)
+                r2 = rng.random()
+                if cand and r2 < 0.5:
+                    k0 = rng.choice(list(cand))
+                    cand = {('zz_' + k if k == k0 else k): (None if k == k0 else v) for k, v in cand.items()}
+                    if r2 < 0.25:
+                        ops.append(['setitem', p, k0, None])
+                        shadow_apply(sh, ops[-1])
+                else:
+                    ops.append(['setitem', p, 'nk', None])
+                    shadow_apply(sh, ops[-1])
+                    cand = dict(fresh(nav(sh, p)) if isinstance(tt, dict) else cand)
+                    if 'nk' in cand:
+                        del cand['nk']
+                        cand['nk2'] = None
+            op = [name, p, cand]
         elif name == 'lappend':
             op = [name, p, rand_lit(rng, 2, p_res)]
         elif name == 'lset':
@@ -568,6 +585,10 @@ def impl(case):
         return rewrap_checks(_random.Random(case['seed']), {})
     if case['kind'] == 'f20':
         return f20_probe(case['key'])
+    if case['kind'] == 'eqpair':
+        return impl_eqpair(case)
+    if case['kind'] == 'inplace':
+        return impl_inplace(case)
     if case['kind'] == 'sweep':
         import random as _random
         return deep_edit_sweep(_random.Random(case['seed']), case['obj'], {})
@@ -665,12 +686,12 @@ TRUSTED = ['copy.deepcopy, object identity, reference semantics and collections.
 ASSUMPTIONS = ['metadata keys are Latin-1 str outside the reserved set R = dir(Meta) + __dunder__ names (open finding F20)',
                'literal values are None/bool/int/str/list/dict (no floats, tuples, sets) in the modelled kinds',
                'heap kind: objects passed to copy() have no internal sharing and no cycles (decided by the model: tree_shaped)']
-LEVEL_TEXT = ('Machine-checked Coq theorems (33, all closed under the global context) over two hand-written models of sugar.core.meta '
+LEVEL_TEXT = ('Machine-checked Coq theorems (35, all closed under the global context) over two hand-written models of sugar.core.meta '
               '(every statement of the modelled Attr methods is executed by the quick tier). '
               '(a) Value level: get/set/delete laws incl. key order; attribute access = key access and get-after-set at ANY path; '
               'recursive Mapping->Attr conversion (to_dict(Attr(d)) = d); an invariant (unique keys, an Attr never directly holds a '
               'plain dict) that Meta(d) establishes and EVERY modelled operation at every path preserves, hence after any history '
-              'x == dict view == x; reading operations return the object unchanged. '
+              'x == dict view == x; reading operations return the object unchanged; Mapping == is equality of finite maps (same key set, equal values; a missing key is not a None value). '
               '(b) Heap level: frame theorem; y = x.copy() has an equal snapshot on disjoint cells; the no-dangling-reference and '
               'two-colour separation invariants are composed through EVERY modelled operation (Meta(d), copy, Meta(x) re-wrap, literal '
               'and reference assignment with conversion, del, list append, is), giving copy isolation over ARBITRARY histories of '
@@ -685,7 +706,7 @@ LEVEL_NOTE = ('Proved for the models only; the models are tied to /repo by testi
               'for tree-shaped objects: a copy() of an internally shared object is outside the modelled domain, decided by tree_shaped), '
               'MutableMapping mixins, the harness. TESTED ONLY (not modelled in Coq): copy() isolation and the in-place / not-in-place '
               'contracts of BioSeq, BioBasket, FeatureList, Feature, Location -- 800/30000 random histories of 227 public operations (secondary operands that are sugar objects are snapshotted too) per '
-              'run (subjects also read from GFF -- feature and location meta._gff -- and from SJSON), 120/2000 exhaustive nested-edit sweeps (every reachable object of one side edited, both directions, depth up to 11), a 5160-case matrix of match/matchall/find_orfs/copy-chains over all reading-frame selections, 33 re-wrap checks, a '
+              'run (subjects also read from GFF -- feature and location meta._gff -- and from SJSON), 120/2000 exhaustive nested-edit sweeps (every reachable object of one side edited, both directions, depth up to 11), a 5160-case matrix of match/matchall/find_orfs/copy-chains over all reading-frame selections, 33 re-wrap checks, an 81-case matrix of mapping pairs differing only in None-valued keys through 14 equality forms, a 210-case matrix of in-place operators with tuple/generator/dict-view/iterator operands (identity, alias, meta, content), a '
               '351-case matrix of mapping kinds x entry paths. Not proved: refinement for reference assignment / paths through list '
               'indices; the heap analogue of the "Attr never holds a plain dict" invariant. '
               'Domain excludes reserved keys R = dir(Meta) + __dunder__ names: open finding F20 (keys such as items/update/copy shadow '
@@ -1168,6 +1189,14 @@ op2('meta', 'mut', 'update_attr_arg', lambda rng, m, c: (r_attr(rng),))(lambda m
 op2('meta', 'mut', 'setitem_attr_arg', lambda rng, m, c: (r_attr(rng),))(lambda m, a: m.__setitem__('shared_arg', a))
 op2('meta', 'pure', 'eq_attr_arg', lambda rng, m, c: (rng.choice([r_attr(rng), m.copy(), dict(m)]),))(lambda m, a: (m == a, a == m) and None)
 op2('meta', 'pure', 'rewrap_arg', lambda rng, m, c: ())(lambda m: (type(m)(m), dict(m)) and None)
+
+for _n in ('iand', 'ior', 'isub', 'ixor', 'iadd'):
+    for _k in ('tuple', 'generator', 'dict_values'):
+        _mkop = {'tuple': tuple, 'generator': lambda l: (x for x in l), 'dict_values': lambda l: dict(enumerate(l)).values()}[_k]
+        op('basket', 'self', '%s_%s' % (_n, _k))(lambda rng, b, c, _n=_n, _m=_mkop: getattr(_op, _n)(
+            b, _m([x for x in b if rng.random() < 0.5] + [c.fresh_seq()])))
+        op('fts', 'self', '%s_%s' % (_n, _k))(lambda rng, f, c, _n=_n, _m=_mkop: getattr(_op, _n)(
+            f, _m([x for x in f if rng.random() < 0.5] + [r_feature(rng, 30, 's1')])))
 
 OPS_BY_KIND = {}
 for _k, _m, _n, _f in OPS:
@@ -1879,6 +1908,167 @@ def deep_edit_sweep(rng, kind, cov):
 
 SWEEP_KINDS = ['seq', 'basket', 'fts', 'meta', 'attr', 'gff_fts', 'gff_basket', 'gff_seq', 'sjson_basket', 'sjson_seq']
 
+# ---- mapping equality = equality of finite maps (replayable kind 'eqpair') -----------------------------------------------
+
+EQ_PAIRS = [
+    ({'id': 's1', 'name': None}, {'id': 's1', 'gene': None}),
+    ({'a': None}, {'b': None}),
+    ({'a': None}, {'a': None}),
+    ({'a': None, 'b': 1}, {'b': 1, 'a': None}),
+    ({'a': None, 'b': 1}, {'b': 1, 'c': None}),
+    ({'a': 0}, {'b': None}),
+    ({'a': None}, {}),
+    ({}, {}),
+    ({'n': {'x': None, 'y': 1}}, {'n': {'z': None, 'y': 1}}),
+    ({'n': {'x': None, 'y': 1}}, {'n': {'y': 1, 'x': None}}),
+    ({'l': [{'x': None}]}, {'l': [{'y': None}]}),
+    ({'l': [{'x': None}]}, {'l': [{'x': None}]}),
+    ({'a': 1, 'b': None, 'c': [None]}, {'a': 1, 'c': [None], 'd': None}),
+    ({'a': False}, {'a': 0}), ({'a': True}, {'a': 1}), ({'a': ''}, {'a': None}), ({'a': None}, {'a': 0}),
+]
+
+
+def plain_eq(a, b):
+    """finite-map equality written from first principles (no ==, no .get on mappings)"""
+    if isinstance(a, dict) and isinstance(b, dict):
+        ka, kb = sorted(a), sorted(b)
+        return ka == kb and all(plain_eq(a[k], b[k]) for k in ka)
+    if isinstance(a, list) and isinstance(b, list):
+        return len(a) == len(b) and all(plain_eq(x, y) for x, y in zip(a, b))
+    if isinstance(a, (dict, list)) or isinstance(b, (dict, list)):
+        return False
+    if a is None or b is None:
+        return a is None and b is None
+    if isinstance(a, str) or isinstance(b, str):
+        return isinstance(a, str) and isinstance(b, str) and a == b
+    return int(a) == int(b)          # bool is an int
+
+
+def impl_eqpair(case):
+    from sugar import BioSeq, BioBasket
+    from sugar.core.fts import Feature, FeatureList, Location
+    from sugar.core.meta import Attr, Meta
+    a, b = case['a'], case['b']
+    exp = plain_eq(a, b)
+    mk = case.get('mk', 'dict')
+    forms = {
+        'Attr==dict': lambda: Attr(fresh(a)) == wrap_kind(fresh(b), mk),
+        'dict==Attr': lambda: wrap_kind(fresh(a), mk) == Attr(fresh(b)),
+        'Meta==Meta': lambda: Meta(fresh(a)) == Meta(fresh(b)),
+        'Attr==Meta': lambda: Attr(fresh(a)) == Meta(fresh(b)),
+        'Meta!=Meta': lambda: not (Meta(fresh(a)) != Meta(fresh(b))),
+        'nested': lambda: Meta({'w': fresh(a), 'k': 1}) == {'k': 1, 'w': fresh(b)},
+        'in list': lambda: Meta({'w': [fresh(a)]}).w == [Attr(fresh(b))],
+        'BioSeq==BioSeq': lambda: BioSeq('ACGT', id='q', meta=fresh(a)) == BioSeq('ACGT', id='q', meta=fresh(b)),
+        'BioBasket==': lambda: BioBasket([BioSeq('AC', id='q')], meta=fresh(a)) == BioBasket([BioSeq('AC', id='q')], meta=fresh(b)),
+        'Feature==': lambda: Feature('cds', start=0, stop=3, meta=fresh(a)) == Feature('cds', start=0, stop=3, meta=fresh(b)),
+        'Location==': lambda: Location(0, 3, meta=fresh(a)) == Location(0, 3, meta=fresh(b)),
+        'FeatureList -': lambda: len(FeatureList([Feature('cds', start=0, stop=3, meta=fresh(a))]) -
+                                     FeatureList([Feature('cds', start=0, stop=3, meta=fresh(b))])) == 0,
+        'FeatureList in': lambda: Feature('cds', start=0, stop=3, meta=fresh(a)) in FeatureList([Feature('cds', start=0, stop=3, meta=fresh(b))]),
+        'copy renamed': lambda: _copy_renamed(a, b),
+    }
+    for name, f in forms.items():
+        e = exp
+        if name in ('BioSeq==BioSeq',):
+            e = plain_eq(dict(fresh(a), id=a.get('id', 'q')), dict(fresh(b), id=b.get('id', 'q')))
+        if name in ('Feature==', 'FeatureList -', 'FeatureList in'):
+            e = plain_eq(dict(fresh(a), type='cds'), dict(fresh(b), type='cds'))
+        if name == 'copy renamed':
+            e = True
+        try:
+            got = bool(f())
+        except Exception as ex:
+            return '%s on %r / %r raised %s: %s' % (name, a, b, type(ex).__name__, ex)
+        if got != e:
+            return '%s: equality of %r and %r is %s, the equivalent dicts compare %s' % (name, a, b, got, e)
+    return None
+
+
+def _copy_renamed(a, b):
+    """a copy whose None-valued key was renamed must not compare equal to the original (and an untouched copy must)"""
+    from sugar.core.meta import Meta
+    x = Meta(fresh(a))
+    y = x.copy()
+    if not (x == y and y == x):
+        return False
+    nk = [k for k, v in x.items() if v is None]
+    if nk:
+        del y[nk[0]]
+        y['zz_renamed'] = None
+        if x == y or y == x:
+            return False
+    return True
+
+
+def eq_matrix():
+    cases = []
+    for a, b in EQ_PAIRS:
+        for mk in ('dict', 'UserDict', 'mappingproxy'):
+            cases.append({'kind': 'eqpair', 'a': a, 'b': b, 'mk': mk})
+            if a != b:
+                cases.append({'kind': 'eqpair', 'a': b, 'b': a, 'mk': mk})
+    return cases
+
+
+# ---- in-place operators with right operands that are not lists (replayable kind 'inplace') ------------------------------
+
+def impl_inplace(case):
+    """r = (recv OP= operand): r is the receiver, a second reference sees the update, the basket meta is retained, and (where the
+    operand can be iterated twice) the content is what the list semantics say"""
+    import random as _random
+    from sugar import BioBasket
+    from sugar.core.fts import FeatureList
+    rng = _random.Random(case.get('seed', 0))
+    if case['obj'] == 'basket':
+        recv = r_basket(rng)
+        recv.meta.keep = {'me': [1]}
+        pool = [r_lower_seq(rng) for _ in range(3)] + list(recv)[:2]
+    else:
+        recv = r_fts(rng)
+        pool = [r_feature(rng, 30, 's1') for _ in range(3)] + list(recv)[:2]
+    items = [x for x in pool if rng.random() < 0.7] or pool[:1]
+    okind = case['operand']
+    operand = {'tuple': lambda: tuple(items), 'generator': lambda: (x for x in items), 'list': lambda: list(items),
+               'dict_values': lambda: {i: x for i, x in enumerate(items)}.values(), 'iter': lambda: iter(items),
+               'same_type': lambda: type(recv)(items), 'set': lambda: set(items)}[okind]
+    try:
+        arg = operand()
+    except TypeError:
+        return None                       # unhashable elements: no set operand exists
+    alias = recv
+    old = list(recv.data)
+    meta_before = dsnap(getattr(recv, 'meta', None))
+    items_before = [dsnap(x, light=True) for x in items]
+    opname = case['op']
+    mem = lambda x, l: any(x == y for y in l)
+    expected = {'ior': old + [x for x in items if not mem(x, old)], 'iand': [x for x in old if mem(x, items)],
+                'isub': [x for x in old if not mem(x, items)], 'iadd': old + list(items), 'ixor': None}[opname]
+    try:
+        r = getattr(_op, opname)(recv, arg)
+    except Exception as e:
+        return None if okind in ('generator', 'iter') else '%s %s= %s raised %s: %s' % (case['obj'], opname, okind, type(e).__name__, e)
+    if r is not recv:
+        return ('%s %s with a %s operand did not return the receiver (a new %s was bound instead: receiver unmodified, identity lost)'
+                % (case['obj'], opname, okind, type(r).__name__))
+    if alias is not recv or list(alias.data) != list(r.data):
+        return 'a second reference does not see the update'
+    if case['obj'] == 'basket' and dsnap(recv.meta) != meta_before:
+        return 'basket meta was not retained by %s' % opname
+    if [dsnap(x, light=True) for x in items] != items_before:
+        return 'the elements of the right operand were changed'
+    if expected is not None and okind not in ('generator', 'iter'):
+        if len(recv.data) != len(expected) or any(a is not b for a, b in zip(recv.data, expected)):
+            return '%s %s= %s: content %r, expected %r' % (case['obj'], opname, okind, recv.data, expected)
+    return None
+
+
+def inplace_matrix():
+    return [{'kind': 'inplace', 'obj': obj, 'op': o, 'operand': k, 'seed': sd}
+            for obj in ('basket', 'fts') for o in ('ior', 'iand', 'isub', 'ixor', 'iadd')
+            for k in ('tuple', 'generator', 'dict_values', 'iter', 'list', 'same_type', 'set') for sd in (0, 1, 2)]
+
+
 F20_WITNESS = {'kind': 'f20', 'reserved_key': True, 'key': 'items'}
 
 
@@ -1937,7 +2127,8 @@ def extra_checks(rng, tier, cov):
         yield {'case': {'kind': 'history', 'obj': 'fts', 'seed': 0, 'nops': 0, 'locmeta_nested': True}, 'impl': why, 'spec': why,
                'noshrink': True, 'model': None, 'wf': True, 'evaluated': False}
         return
-    for mat, name in ((pure_matrix(tier), 'pure_matrix_cases'), (mapkind_matrix(), 'mapkind_matrix_cases')):
+    for mat, name in ((pure_matrix(tier), 'pure_matrix_cases'), (mapkind_matrix(), 'mapkind_matrix_cases'),
+                      (eq_matrix(), 'eq_matrix_cases'), (inplace_matrix(), 'inplace_matrix_cases')):
         cov[name] = len(mat)
         for case in mat:
             why = F.jcanon(F.run_impl(impl, case))
